@@ -562,6 +562,9 @@ fn restore_contents<S: Open>(
     }
 
     let sizes = &Mutex::new(file_lengths);
+    // files which are newly created by this restore; only for those all-zero blobs can be left out (as holes):
+    // a file which already existed may hold other data at that position
+    let new_files = &Mutex::new(vec![false; filenames.len()]);
 
     let p = repo.progress_bytes("restoring file contents...");
     p.set_length(restore_size);
@@ -663,10 +666,13 @@ fn restore_contents<S: Open>(
                                 let mut sizes_guard = sizes.lock().unwrap();
                                 let filesize = sizes_guard[file_idx];
                                 if filesize > 0 {
+                                    let existed = dest.exists(path);
                                     dest.set_length(path, filesize).unwrap();
                                     sizes_guard[file_idx] = 0;
+                                    new_files.lock().unwrap()[file_idx] = !existed;
                                 }
                                 drop(sizes_guard);
+                                let is_sparse = is_sparse && new_files.lock().unwrap()[file_idx];
                                 if !is_sparse {
                                     dest.write_at(path, start, &data).unwrap();
                                 }
